@@ -123,7 +123,7 @@ def smtLine (s : SmtState) (lineNo : Nat) (line : String) : Except String SmtSta
   | "A" :: "sat" :: lits =>
     match s.stepSmt (.answer (.sat (parseLits lits))) with
     | some s' => pure { s' with nAnswer := s.nAnswer + 1 }
-    | none => throw s!"line {lineNo}: REJECT sat-model-falsifies-input-clause"
+    | none => throw s!"line {lineNo}: REJECT sat-model-rejected (falsifies an input clause or leaves a root formula undetermined/false)"
   | "A" :: "unsat" :: lits =>
     match s.stepSmt (.answer (.unsat (parseLits lits))) with
     | some s' => pure { s' with nAnswer := s.nAnswer + 1 }
